@@ -417,6 +417,131 @@ fn replay_rowlimit(_args: &[String]) -> i32 {
     0
 }
 
+/// C15 probe: `faults` -- a medium that fails write number k (only that one: transient; or that
+/// one and all later ones: persistent).  Five scripts (change the summary information; insert
+/// rows with new strings; both; update a row; delete a row) each end with flush() and with into_inner(); for every k and both
+/// fault kinds: if EVERY call returned Ok, the bytes on the medium must reopen to the state the
+/// calls describe.  A panic counts as a violation.
+mod faults {
+    use std::cell::RefCell;
+    use std::io::{self, Read, Seek, SeekFrom, Write};
+    use std::rc::Rc;
+    pub struct Shared { pub data: Vec<u8>, pub writes: usize, pub fail_at: usize, pub persistent: bool }
+    #[derive(Clone)]
+    pub struct Medium { pub sh: Rc<RefCell<Shared>>, pub pos: u64 }
+    impl Read for Medium {
+        fn read(&mut self, buf: &mut [u8]) -> io::Result<usize> {
+            let sh = self.sh.borrow();
+            let p = (self.pos as usize).min(sh.data.len());
+            let n = buf.len().min(sh.data.len() - p);
+            buf[..n].copy_from_slice(&sh.data[p..p + n]);
+            drop(sh);
+            self.pos += n as u64;
+            Ok(n)
+        }
+    }
+    impl Write for Medium {
+        fn write(&mut self, buf: &[u8]) -> io::Result<usize> {
+            let mut sh = self.sh.borrow_mut();
+            let k = sh.writes;
+            sh.writes += 1;
+            if k == sh.fail_at || (sh.persistent && k > sh.fail_at) {
+                return Err(io::Error::new(io::ErrorKind::Other, "injected write fault"));
+            }
+            let p = self.pos as usize;
+            if sh.data.len() < p + buf.len() { sh.data.resize(p + buf.len(), 0); }
+            sh.data[p..p + buf.len()].copy_from_slice(buf);
+            drop(sh);
+            self.pos += buf.len() as u64;
+            Ok(buf.len())
+        }
+        fn flush(&mut self) -> io::Result<()> { Ok(()) }
+    }
+    impl Seek for Medium {
+        fn seek(&mut self, from: SeekFrom) -> io::Result<u64> {
+            let len = self.sh.borrow().data.len() as i64;
+            let np = match from { SeekFrom::Start(n) => n as i64, SeekFrom::End(d) => len + d, SeekFrom::Current(d) => self.pos as i64 + d };
+            if np < 0 { return Err(io::Error::new(io::ErrorKind::InvalidInput, "negative seek")); }
+            self.pos = np as u64;
+            Ok(self.pos)
+        }
+    }
+}
+
+fn replay_faults(_args: &[String]) -> i32 {
+    use faults::{Medium, Shared};
+    use msi::{Column, Delete, Expr, Insert, Select, Update};
+    use std::cell::RefCell;
+    use std::rc::Rc;
+    panic::set_hook(Box::new(|_| {}));
+    // a base package: one table with two rows, a title
+    let base: Vec<u8> = {
+        let mut p = Package::create(PackageType::Installer, Cursor::new(Vec::new())).unwrap();
+        p.create_table("T", vec![Column::build("K").primary_key().int16(), Column::build("S").nullable().string(32)]).unwrap();
+        p.insert_rows(Insert::into("T").row(vec![Value::Int(1), Value::Str("one".into())]).row(vec![Value::Int(2), Value::Str("two".into())])).unwrap();
+        p.summary_info_mut().set_title("base");
+        p.into_inner().unwrap().into_inner()
+    };
+    // state of a package: (title, rows)
+    fn state(bytes: &[u8]) -> Result<(Option<String>, Vec<(i32, String)>), String> {
+        let mut p = Package::open(Cursor::new(bytes.to_vec())).map_err(|e| format!("open: {e}"))?;
+        let title = p.summary_info().title().map(|s| s.to_string());
+        let mut rows = Vec::new();
+        for r in p.select_rows(Select::table("T")).map_err(|e| format!("select: {e}"))? {
+            let k = match r[0] { Value::Int(n) => n, _ => -1 };
+            let s = match &r[1] { Value::Str(s) => s.clone(), _ => String::new() };
+            rows.push((k, s));
+        }
+        Ok((title, rows))
+    }
+    for script in 0..5 {
+        for end_with_into_inner in [false, true] {
+            // fault-free run: expected state and number of writes
+            let run = |fail_at: usize, persistent: bool| -> (bool, Vec<u8>, usize) {
+                let sh = Rc::new(RefCell::new(Shared { data: base.clone(), writes: 0, fail_at, persistent }));
+                let medium = Medium { sh: sh.clone(), pos: 0 };
+                let all_ok = (|| -> std::io::Result<()> {
+                    let mut p = Package::open(medium)?;
+                    if script == 0 || script == 2 { p.summary_info_mut().set_title("changed title, long enough to matter"); }
+                    if script == 1 || script == 2 {
+                        p.insert_rows(Insert::into("T").row(vec![Value::Int(3), Value::Str("three".into())]).row(vec![Value::Int(4), Value::Str("a new string".into())]))?;
+                    }
+                    if script == 3 { p.update_rows(Update::table("T").set("S", Value::Str("updated".into())).with(Expr::col("K").eq(Expr::integer(2))))?; }
+                    if script == 4 { p.delete_rows(Delete::from("T").with(Expr::col("K").eq(Expr::integer(1))))?; }
+                    if end_with_into_inner { p.into_inner()?; } else { p.flush()?; drop(p); }
+                    Ok(())
+                })().is_ok();
+                let b = sh.borrow();
+                (all_ok, b.data.clone(), b.writes)
+            };
+            let (ok0, bytes0, nwrites) = run(usize::MAX, false);
+            let want = match state(&bytes0) { Ok(s) if ok0 => s, _ => { println!("REPLAY family=faults verdict=ok (fault-free run did not complete; probe not applicable)"); return 0; } };
+            for persistent in [false, true] {
+                for k in 0..nwrites {
+                    let res = panic::catch_unwind(panic::AssertUnwindSafe(|| run(k, persistent)));
+                    let (all_ok, bytes, _) = match res {
+                        Err(_) => {
+                            println!("REPLAY family=faults script={script} end={} fault=write#{k}{} verdict=VIOLATED (panic)", if end_with_into_inner { "into_inner" } else { "flush" }, if persistent { "+" } else { "" });
+                            return 1;
+                        }
+                        Ok(x) => x,
+                    };
+                    if all_ok {
+                        let got = state(&bytes);
+                        if got.as_ref().ok() != Some(&want) {
+                            println!("REPLAY family=faults script={script} end={} fault=write#{k}{} every call returned Ok, but the medium reopens to {:?} instead of {:?} verdict=VIOLATED",
+                                if end_with_into_inner { "into_inner" } else { "flush" }, if persistent { " and all later writes" } else { " only" }, got, want);
+                            return 1;
+                        }
+                    }
+                }
+            }
+        }
+    }
+    println!("REPLAY family=faults verdict=ok (5 scripts x 2 endings x every write index x transient/persistent: no silent loss)");
+    0
+}
+
 fn main() {
     let args: Vec<String> = std::env::args().skip(1).collect();
     if args.is_empty() {
@@ -433,6 +558,7 @@ fn main() {
         "time" => replay_time(&args[1..]),
         "poolcap" => replay_poolcap(&args[1..]),
         "rowlimit" => replay_rowlimit(&args[1..]),
+        "faults" => replay_faults(&args[1..]),
         _ => 2,
     };
     std::process::exit(rc);
